@@ -113,20 +113,24 @@ def main():
         json.dump(meta, open(f"{dest}/meta.json", "w"), indent=1)
         return
     # 3. our checks against it, in /repo
-    rc, o = sh("git status --porcelain", cwd="/repo")
-    if o.strip(): raise SystemExit("/repo is not clean")
-    rc, o = sh(f"git apply {diff}", cwd="/repo")
-    if rc != 0: raise SystemExit("patch does not apply to /repo: " + o)
+    # SEED_REPO / SEED_CHECK: run the checks from a copy of /verif against a scratch worktree
+    # (VERIF_REPO is passed on to the copy's check script) while /repo itself is busy
+    REPO = os.environ.get("SEED_REPO", "/repo"); CHECK = os.environ.get("SEED_CHECK", "/verif/check")
+    cenv = {"VERIF_REPO": REPO} if REPO != "/repo" else None
+    rc, o = sh("git status --porcelain", cwd=REPO)
+    if o.strip(): raise SystemExit(REPO + " is not clean")
+    rc, o = sh(f"git apply {diff}", cwd=REPO)
+    if rc != 0: raise SystemExit("patch does not apply to " + REPO + ": " + o)
     try:
         for c in checks:
             t0 = time.time()
-            rc, o = sh(f"/verif/check {c} {tier}", cwd="/verif", timeout=7200)
+            rc, o = sh(f"{CHECK} {c} {tier}", cwd=os.path.dirname(CHECK), env=cenv, timeout=7200)
             lines = [l for l in o.splitlines() if l.startswith("VIOLATION") or l.startswith("ERROR") or l.startswith("[C")]
             meta["checks"][f"{c}:{tier}"] = {"exit": rc, "wall_s": round(time.time() - t0, 1), "first_lines": lines[:3]}
             print(f"check {c} {tier}: exit {rc}  {lines[:2]}")
     finally:
-        sh("git checkout -q -- .", cwd="/repo")
-        sh("rm -f /verif/replays/*.json")
+        sh("git checkout -q -- .", cwd=REPO)
+        sh(f"rm -f {os.path.dirname(CHECK)}/replays/*.json")
     os.makedirs(dest, exist_ok=True)
     if os.path.abspath(diff) != os.path.abspath(f"{dest}/patch.diff"):
         shutil.copy(diff, f"{dest}/patch.diff"); shutil.copy(demo, f"{dest}/demo.rs")
